@@ -44,3 +44,19 @@ def run(rep: Report, repo: Repo, tier: str) -> None:
     # ... nor on whether a parent of the tree is itself reached through a link
     with rep.isolated():
         _fsr.rule_symlinked_subdirs(rep, repo, "C17-R12")
+    # the exclusion spec every input of a run is matched against is built from a list, not from a one-shot iterator
+    with rep.isolated():
+        _fsr.rule_match_sites(rep, repo, "C17-R13")
+    with rep.isolated():
+        _fsr.rule_fs_probes_absolute(rep, repo, "C17-R14")
+    # the packaged defaults carry no exclusion pattern: patterns are matched against absolute paths, so an unanchored default
+    # pattern would make the processed set depend on the names of the tree's parent directories
+    with rep.isolated():
+        rep.rule("C17-R15", "config_default.yaml ships an empty input.exclude_filters")
+        import yaml as _yaml
+        y = _yaml.safe_load(repo.read("src/cminx/config_default.yaml")) or {}
+        ef = (y.get("input") or {}).get("exclude_filters")
+        rep.check(not ef, "C17-R15", "src/cminx/config_default.yaml", f"input.exclude_filters = {ef!r}",
+                  "default exclusion patterns are matched against the absolute path of every file: a tree that happens to live "
+                  "below a directory with such a name is silently skipped, the same tree elsewhere is documented",
+                  witness="the same tree below <build>/_deps/ and elsewhere")
